@@ -723,30 +723,30 @@ func TestProp(t *testing.T) {
 	kit.Run(t, "C01", rule,
 		kit.Enum[latCase]{Name: "C01/mc/enum-cell", N: 256 * 2, At: func(i int) latCase {
 			return latCase{L: gen.LatticeFromUint(2, 2, 2, uint64(i%256)), API: []string{"mc", "filter"}[i/256]}
-		}, Check: checkLat3},
-		kit.Enum[latCase]{Name: "C01/mc/enum-pair", N: 3 << 12, At: func(i int) latCase { return orientedBlock(i, 3, 2, 2, 12) }, Check: checkLat3},
-		kit.Enum[latCase]{Name: "C01/mc/enum-block332", N: 3 << 18, QuickStride: 13, At: func(i int) latCase { return orientedBlock(i, 3, 3, 2, 18) }, Check: checkLat3},
+		}, Check: checkLat3, Fresh: true},
+		kit.Enum[latCase]{Name: "C01/mc/enum-pair", N: 3 << 12, At: func(i int) latCase { return orientedBlock(i, 3, 2, 2, 12) }, Check: checkLat3, Fresh: true},
+		kit.Enum[latCase]{Name: "C01/mc/enum-block332", N: 3 << 18, QuickStride: 13, At: func(i int) latCase { return orientedBlock(i, 3, 3, 2, 18) }, Check: checkLat3, Fresh: true},
 		kit.Clause[latCase]{Name: "C01/mc/random-lattice", Quick: 1500, Thorough: 40000, Gen: func(t *rapid.T) latCase {
 			c := latCase{L: gen.Lattice3Gen(t, 6, "lattice"), API: rapid.SampledFrom(apis).Draw(t, "api")}
 			if c.API != "mc" && c.API != "filter" {
 				c.Iters = rapid.IntRange(0, 6).Draw(t, "iters")
 			}
 			return c
-		}, Check: checkLat3},
-		kit.Clause[csgCase]{Name: "C01/mc/random-csg", Quick: 500, Thorough: 12000, Gen: genCSG, Check: checkCSG},
+		}, Check: checkLat3, Fresh: true},
+		kit.Clause[csgCase]{Name: "C01/mc/random-csg", Quick: 500, Thorough: 12000, Gen: genCSG, Check: checkCSG, Fresh: true},
 		kit.Enum[lat2Case]{Name: "C01/ms/enum-3x3", N: 512 * 2, At: func(i int) lat2Case {
 			return lat2Case{L: gen.Lattice2FromUint(3, 3, uint64(i%512)), API: []string{"ms", "filter"}[i/512]}
-		}, Check: checkLat2},
+		}, Check: checkLat2, Fresh: true},
 		kit.Enum[lat2Case]{Name: "C01/ms/enum-4x4", N: 65536, QuickStride: 4, At: func(i int) lat2Case {
 			return lat2Case{L: gen.Lattice2FromUint(4, 4, uint64(i)), API: []string{"ms", "ms", "ms", "filter"}[(i/5)%4]}
-		}, Check: checkLat2},
+		}, Check: checkLat2, Fresh: true},
 		kit.Clause[lat2Case]{Name: "C01/ms/random-lattice", Quick: 2000, Thorough: 50000, Gen: func(t *rapid.T) lat2Case {
 			c := lat2Case{L: gen.Lattice2Gen(t, 9, "lattice"), API: rapid.SampledFrom([]string{"ms", "search", "filter", "searchfilter"}).Draw(t, "api")}
 			if c.API != "ms" && c.API != "filter" {
 				c.Iters = rapid.IntRange(0, 6).Draw(t, "iters")
 			}
 			return c
-		}, Check: checkLat2},
+		}, Check: checkLat2, Fresh: true},
 		kit.Clause[csg2Case]{Name: "C01/ms/random-csg", Quick: 1000, Thorough: 30000, Gen: func(t *rapid.T) csg2Case {
 			c := csg2Case{Tree: gen.Node2Gen(t, 3, 8, "tree"), Delta: gen.LogF(t, 0.03, 0.4, "delta")}
 			c.API = rapid.SampledFrom([]string{"ms", "search", "filter", "searchfilter", "c2f", "conj"}).Draw(t, "api")
@@ -764,7 +764,7 @@ func TestProp(t *testing.T) {
 				}
 			}
 			return c
-		}, Check: checkCSG2},
+		}, Check: checkCSG2, Fresh: true},
 		kit.Enum[gen.Lattice2]{Name: "C01/bitmap/enum-4x4", N: 65536, QuickStride: 2, At: func(i int) gen.Lattice2 { return gen.Lattice2FromUint(4, 4, uint64(i)) }, Check: checkBitmap},
 		kit.Clause[gen.Lattice2]{Name: "C01/bitmap/random", Quick: 1500, Thorough: 40000, Gen: func(t *rapid.T) gen.Lattice2 { return gen.Lattice2Gen(t, 9, "bitmap") }, Check: checkBitmap},
 		kit.Clause[paramCase]{Name: "C01/gen/parametric", Quick: 600, Thorough: 15000, Gen: genParam, Check: checkParam},
